@@ -45,3 +45,19 @@ HI(h_ip_znx_automorphism, int64_t, znx_automorphism_i64, znx_automorphism_inplac
 HI(h_ip_rnx_rotate, double, rnx_rotate_f64, rnx_rotate_inplace_f64, 0)
 HI(h_ip_rnx_automorphism, double, rnx_automorphism_f64, rnx_automorphism_inplace_f64, 1)
 HI(h_ip_rnx_mul_xp_minus_one, double, rnx_mul_xp_minus_one, rnx_mul_xp_minus_one_inplace, 0)
+
+// ---- S4: rnx_mul_xp_minus_one against the ring-map spec a*X^p - a (one IEEE subtraction per coefficient), concrete
+// dimension NN and concrete p = PVAL (every residue mod 2NN is enumerated by the job generator): with symbolic p or a
+// loop contract the solver would have to prove two IEEE subtractors equal on equal inputs (timeout, DESIGN 0/D5)
+void h_rnx_mul_xp_spec(void) {
+  double a[NN], r[NN];
+  for (int i = 0; i < NN; ++i) a[i] = nondet_double();
+  int64_t p = pick_p(0);
+  rnx_mul_xp_minus_one(NN, p, r, a);
+  for (uint64_t t = 0; t < NN; ++t) {
+    uint64_t s = ((uint64_t)t - (uint64_t)p) & (2 * NN - 1);
+    double want = (s < NN ? a[s] : -a[s - NN]) - a[t];
+    __CPROVER_assert(r[t] == want || (r[t] != r[t] && want != want), "rnx_mul_xp_minus_one: res[t] == (a*X^p)[t] - a[t]");
+  }
+  VACUITY_CANARY();
+}
